@@ -1973,6 +1973,7 @@ int EGLPNUM_TYPENAME_ILLlib_chgsense (
 			EGLPNUM_TYPENAME_EGlpNumZero(qslp->lower[j]);
 			EGLPNUM_TYPENAME_EGlpNumZero(qslp->upper[j]);
 			EGLPNUM_TYPENAME_EGlpNumOne(A->matval[k]);
+			EGLPNUM_TYPENAME_EGlpNumSign(A->matval[k]);	/* as in addrow: a.x - s = rhs */
 			break;
 		case 'E':									/* Artificial */
 			qslp->sense[rowlist[i]] = 'E';
@@ -1998,6 +1999,9 @@ int EGLPNUM_TYPENAME_ILLlib_chgsense (
 			rval = 1;
 			ILL_CLEANUP;
 		}
+		/* whatever the row was before, it has no range now */
+		if (qslp->rangeval)
+			EGLPNUM_TYPENAME_EGlpNumZero (qslp->rangeval[rowlist[i]]);
 	}
 
 CLEANUP:
@@ -3320,6 +3324,8 @@ int EGLPNUM_TYPENAME_ILLlib_chgrange (
 	}
 	
 	EGLPNUM_TYPENAME_EGlpNumCopy(qslp->rangeval[indx], coef);
+	/* the range is the upper bound of the row's logical variable */
+	EGLPNUM_TYPENAME_EGlpNumCopy(qslp->upper[qslp->rowmap[indx]], coef);
 
 CLEANUP:
 
